@@ -1,7 +1,28 @@
-(** placeholder while the pipeline is brought up *)
+(** * C12 — parse/validate work is polynomially bounded; the depth limit is about depth only.
+    This file contains only statements closed by [exact] and their [Print Assumptions].
+    (interim: parser part) *)
 From Coq Require Import List ZArith.
-From ApiFu Require Import Cplx.ParserDepthModel.
+From ApiFu Require Import Cplx.ParserDepthModel Cplx.ComplexitySpec Cplx.ParserDepthProofs.
 Import ListNotations.
-Theorem C12_placeholder : exists s, parse go_cfg [] = Err SyntaxErr s.
-Proof. exact (ex_intro _ _ eq_refl). Qed.
-Print Assumptions C12_placeholder.
+Open Scope Z_scope.
+
+Theorem C12_recursion_balanced : forall c, sel_exit c = true ->
+  forall p fuel s s', run_production c p fuel s = Ok s' -> rec_ s' = rec_ s /\ opens s' = opens s.
+Proof. exact recursion_balanced. Qed.
+
+Theorem C12_parse_steps_linear : forall c, sel_exit c = true ->
+  forall ts,
+    match parse c ts with
+    | Ok s' | Err _ s' => steps s' <= 8 * Z.of_nat (length ts) + 6
+    | OutOfFuel => False
+    end.
+Proof. exact parse_steps_linear. Qed.
+
+Theorem C12_depth_limit_iff : forall ts,
+  (forall s', parse go_cfg ts = Err DepthErr s' -> 1000 < 6 + 4 * maxnest ts) /\
+  (1000 < maxnest ts -> exists k s', parse go_cfg ts = Err k s').
+Proof. exact depth_limit_iff. Qed.
+
+Print Assumptions C12_recursion_balanced.
+Print Assumptions C12_parse_steps_linear.
+Print Assumptions C12_depth_limit_iff.
